@@ -12,6 +12,7 @@ require (
 	github.com/stretchr/testify v1.8.4 // indirect
 	go.brendoncarroll.net/exp v0.0.0-20241118183830-280772e567eb // indirect
 	golang.org/x/crypto v0.9.0 // indirect
+	golang.org/x/sync v0.2.0 // indirect
 	golang.org/x/sys v0.8.0 // indirect
 	golang.zx2c4.com/wireguard v0.0.0-20220920152132-bb719d3a6e2c // indirect
 	google.golang.org/protobuf v1.28.0 // indirect
